@@ -23,7 +23,8 @@ CONSTANTS Shape,            \* <<N1>>, <<NY, NX>> or <<NZ, NY, NX>>
           MaxSolves,
           ResetBeforeCopy,  \* TRUE (intended)
           Corner,           \* corner copied OUT: "low" (intended, where the right-hand side went in) | "high"
-          Reflect           \* "even" (intended) | "none" (periodic images)
+          Reflect,          \* "even" (intended) | "none" (periodic images)
+          SkipZeroRhs       \* FALSE (intended) | TRUE: variant that returns early for an identically zero right-hand side
 
 VARIABLES pc, rhs, dbl, sol, nsolves, hist
 vars == <<pc, rhs, dbl, sol, nsolves, hist>>
@@ -67,15 +68,18 @@ FromCorner(d) == d
 Impulse(c0, v) == [c \in Cells |-> IF c = c0 THEN v ELSE 0]
 Dense(k)       == [c \in Cells |-> (((IF D >= 1 THEN 3 * c[1] ELSE 0) + (IF D >= 2 THEN 5 * c[2] ELSE 0)
                                       + (IF D >= 3 THEN 7 * c[3] ELSE 0) + k) % 5) - 2]
-RhsChoices == IF RhsSet = "impulses" THEN {Impulse(c0, 1) : c0 \in Cells} \cup {Dense(1)}
-              ELSE {Dense(k) : k \in 1..3} \cup {Impulse(c0, -2) : c0 \in Cells}
+ZeroRhs    == [c \in Cells |-> 0]
+RhsChoices == IF RhsSet = "impulses" THEN {Impulse(c0, 1) : c0 \in Cells} \cup {Dense(1), ZeroRhs}
+              ELSE {Dense(k) : k \in 1..3} \cup {Impulse(c0, -2) : c0 \in Cells} \cup {ZeroRhs}
+\* the caller's solution array holds arbitrary earlier contents (here: a recognisable non-zero form)
+StaleForm  == [s \in Seps |-> IF \A a \in 1..D : s[a] = 0 THEN 9 ELSE 0]
 \* stale buffers: all zero, or one arbitrary cell holding an arbitrary value (the machine is linear in the
 \* stale contents, so single cells cover all stale contents)
 StaleChoices == {[d \in DCells |-> 0]} \cup
                 {[d \in DCells |-> IF d = d0 THEN v ELSE 0] : d0 \in DCells, v \in StaleVals \ {0}}
 
 Init == /\ pc = "reset" /\ rhs \in RhsChoices /\ dbl \in StaleChoices
-        /\ sol = [c \in Cells |-> ZeroF] /\ nsolves = 1 /\ hist = <<>>
+        /\ sol = [c \in Cells |-> StaleForm] /\ nsolves = 1 /\ hist = <<>>
 
 Reset   == /\ pc = "reset"
            /\ dbl' = IF ResetBeforeCopy THEN [d \in DCells |-> 0] ELSE dbl
@@ -86,7 +90,8 @@ CopyIn  == /\ pc = "copyin"
 \* forward transform, product with the transformed Green's function, inverse transform: one action,
 \* after which only the part that is copied out matters
 ConvOut == /\ pc = "conv"
-           /\ sol' = [c \in Cells |-> CircConvAt(dbl, CornerCell(c))]
+           /\ sol' = IF SkipZeroRhs /\ rhs = ZeroRhs THEN sol
+                     ELSE [c \in Cells |-> CircConvAt(dbl, CornerCell(c))]
            /\ pc' = "done" /\ UNCHANGED <<rhs, dbl, nsolves, hist>>
 \* next solve on the same object: new right-hand side, buffer holds arbitrary leftovers
 Again   == /\ pc = "done" /\ nsolves < MaxSolves
